@@ -348,14 +348,17 @@ func runC12(c *Ctx) {
 		check("M3-agree", cls, ok)
 		if !ok {
 			sig := "scanner-parser-disagree"
-			// the known defect: the literal is never closed, so no expression is found at all and the text stays as it is
-			noExpr := true
+			// the known defect: a closing quote after a backslash does not close the literal for the scanner, which therefore
+			// runs on - no expression is found at all, or one that extends beyond the parser's. Ending an expression early is
+			// something else.
+			runsOn := true
 			for _, t := range got {
 				if t.K != "B" {
-					noExpr = false
+					runsOn = strings.HasPrefix(t.T, e) && len(t.T) > len(e)
+					break
 				}
 			}
-			if hasBackslashClosedLiteral(e) && noExpr {
+			if hasBackslashClosedLiteral(e) && runsOn {
 				sig = "scanner-text-literal-closing-quote-after-backslash"
 			}
 			c.Fail("monitor", "M3-agree", sig, "the scanner does not end the expression where the parser's expression ends",
